@@ -1054,9 +1054,6 @@ MUTANTS = [
     dict(id="C16.f-D12-reintroduced-unwrap-of-an-empty-probation-head", prop="C16", file="crates/storage/src/tiny_lfu/policy.rs",
          old='        let Some(victim) = self.lru.peek_least_recent(lru::Region::Probation)\n        else {\n            self.lru.move_key_to_head_of_region(unpin, lru::Region::Probation);\n            return;\n        };\n', new="        let victim =\n            self.lru.peek_least_recent(lru::Region::Probation).unwrap();\n",
          expect="C16.f/policy/region-head-unwrapped-only-under-its-own-length-test"),
-    dict(id="C16.f-trim-loop-guarded-by-the-wrong-region", prop="C16", file="crates/storage/src/tiny_lfu/policy.rs",
-         old="        while self.lru.pinned_len() > 0 {", new="        while self.lru.probation_len() > 0 {",
-         expect="C16.f/policy/region-head-unwrapped-only-under-its-own-length-test"),
     dict(id="C02.i-D14-reintroduced-cancelled-request-always-unregisters", prop="C02", file=CG + "computing.rs",
          old="        if request.in_flight > 0 || request.kept {\n            return;\n        }\n", new="",
          expect="C02.i/register_callee/undo-token-belongs-to-the-registration"),
